@@ -290,7 +290,7 @@ class Exec:
         o.hyp_tags = [";".join(sorted(TAGS.get(h.get_id(), ()))) or None for h in o.hyps]
         only = (by or {}).get("only")
         if only is not None:
-            keep = [(h, t) for h, t in zip(o.hyps, o.hyp_tags) if t is not None and any(tt.startswith(x) for tt in t.split(";") for x in only)]
+            keep = [(h, t) for h, t in zip(o.hyps, o.hyp_tags) if t is not None and any(tt.startswith(x) for tt in t.split(";") for x in list(only) + ["def:"])]
             o.hyps = [h for h, _ in keep]
             o.hyp_tags = [t for _, t in keep]
         self.ctx.obls.append(o)
